@@ -2,6 +2,7 @@
 leaves (ints unbounded, integer-valued floats, ordered string atoms)."""
 from symx import logic as L
 from symx.bind import bind_names, unbind
+from symx.common import PathEnd
 from . import jsonval as J
 
 LEVEL = 'model_checking'
@@ -130,6 +131,7 @@ def _single(eng, JU, v):
         eng.check('C18.typeerror', ok, ('non-json',), info={'v': repr(v)[:200]})
         eng.witness('typeerror')
         return
+    JU = _Total(eng, JU)
     r = JU.sanitize(v)
     e = J.spec_roundtrip(eng, v)
     eng.check('C18.sanitize-roundtrip', J.same(r, e), ('sanitize',), info={'v': repr(v)[:200], 'r': repr(r)[:200]})
@@ -146,7 +148,36 @@ def _single(eng, JU, v):
     eng.sample({'family': 'single', 'v': J.concretise(v), 'sanitized': J.concretise(r)})
 
 
+class _Total:
+    """The helpers under test, with the law every other law presupposes: on JSON values they return (a TypeError or
+    any other exception out of is_equal / to_hashable / sanitize on a JSON value is a violation, not a modelling gap)."""
+
+    def __init__(self, eng, JU):
+        self.eng, self.JU = eng, JU
+
+    def _call(self, name, *args):
+        from symx.common import HarnessError
+        try:
+            return getattr(self.JU, name)(*args)
+        except HarnessError:
+            raise
+        except Exception as e:
+            self.eng.check('C18.total', False, ('total', name, type(e).__name__),
+                           info={'helper': name, 'args': repr(args)[:300], 'raised': '%s: %s' % (type(e).__name__, str(e)[:100])})
+            raise PathEnd()
+
+    def is_equal(self, a, b):
+        return self._call('is_equal', a, b)
+
+    def to_hashable(self, a):
+        return self._call('to_hashable', a)
+
+    def sanitize(self, a):
+        return self._call('sanitize', a)
+
+
 def _pair(eng, JU, a0, b0):
+    JU = _Total(eng, JU)
     a, b = JU.sanitize(a0), JU.sanitize(b0)
     ab = JU.is_equal(a, b)
     eng.check('C18.is_equal-bool', ab.__class__ is bool, ('type',))
@@ -174,6 +205,7 @@ def _pair(eng, JU, a0, b0):
 
 
 def _triple(eng, JU, vs):
+    JU = _Total(eng, JU)
     a, b, c = [JU.sanitize(v) for v in vs]
     ab, bc, ac = bool(JU.is_equal(a, b)), bool(JU.is_equal(b, c)), bool(JU.is_equal(a, c))
     eng.check('C18.transitive', (not (ab and bc)) or ac, ('transitive',),
